@@ -229,7 +229,7 @@ def sample_repr(sc):
 
 
 GROUP_KEYS = ("oracle", "mode", "kind")
-BUDGET = {"quick": 20000, "thorough": 400000}
+BUDGET = {"quick": 80000, "thorough": 400000}
 WALL_CAP = {"quick": 240, "thorough": 3000}
 RULE = (
     "run i derives (N in 0..40 biased to multiples of W and W+-1, W in 1..4, uneven mode, sampler kind, base seed given/unset, per-rank init_epoch, "
